@@ -110,7 +110,8 @@ def insn_bounds(data):
 
 
 class Shape:
-    def __init__(self, kind="plain", funcs=True, cfi="none", ann="none", data_follows=False, callee2=False, bare_b1=False, gap=False, pe=False):
+    def __init__(self, kind="plain", funcs=True, cfi="none", ann="none", data_follows=False, callee2=False, bare_b1=False, gap=False, pe=False, ftflags=False):
+        self.ftflags = ftflags          # the module's fallthrough edges carry non-default label flags (conditional=True, as the not-taken edge of a jcc does)
         self.pe = pe                    # a PE module instead of an ELF one (same ISA, same bytes)
         self.kind, self.funcs, self.cfi, self.ann, self.data_follows, self.callee2 = kind, funcs, cfi, ann, data_follows, callee2
         self.gap = gap                  # two bytes covered by NO block at the start of the byte interval (the first block is not at interval offset 0)
@@ -118,7 +119,7 @@ class Shape:
 
     def __repr__(self):
         return "shape(kind=%s funcs=%s cfi=%s ann=%s%s%s)" % (self.kind, self.funcs, self.cfi, self.ann, " data" if self.data_follows else "",
-                                                             (" callee-of-two-blocks" if self.callee2 else "") + (" b1-without-labels" if self.bare_b1 else "") + (" leading-gap" if self.gap else "") + (" PE" if self.pe else ""))
+                                                             (" callee-of-two-blocks" if self.callee2 else "") + (" b1-without-labels" if self.bare_b1 else "") + (" leading-gap" if self.gap else "") + (" PE" if self.pe else "") + (" flagged-fallthroughs" if getattr(self, "ftflags", False) else ""))
 
 
 def build(shape):
@@ -165,6 +166,10 @@ def build(shape):
         add_edge(ir.cfg, gret, b2, gtirb.EdgeType.Return)
     else:
         add_edge(ir.cfg, gret, add_proxy_block(m), gtirb.EdgeType.Return)
+    if getattr(shape, "ftflags", False):
+        for e in [e for e in ir.cfg if e.label.type == gtirb.EdgeType.Fallthrough]:
+            ir.cfg.discard(e)
+            ir.cfg.add(gtirb.Edge(e.source, e.target, gtirb.EdgeLabel(gtirb.EdgeType.Fallthrough, conditional=True, direct=e.label.direct)))
     blocks = [b0, b1, b2, g1] + ([g2] if shape.callee2 else [])
     if shape.data_follows:
         _, dbi = add_data_section(m, address=0x2000)
